@@ -15,7 +15,7 @@ add("C19", EXP, "runtime monitoring: sequential contract assertions on boundary/
     "The real LamportClock is executed; oracles observe every result. Held = no counter-example among the executed inputs/interleavings (2^64-1 is a listed known finding).",
     "porcupine v1.3.0 and the Go race detector are trusted; interleavings are those the Go scheduler produced on this machine")
 
-NOT_BUILT = "check not built yet (work in progress in this session)"
+NOT_BUILT = "not claimed: runtime monitoring applies and DESIGN.md section 4 describes the monitor, but it was not built in the time available (DESIGN.md section 7.1); no check, no evidence"
 
 def load_extra():
     p = f"{ROOT}/tools/manifest_table.json"
